@@ -5,7 +5,7 @@ from ..mem import addr_str
 from ..summary import akey
 from ..contract import block_size, family
 from .common import public_functions, construct, fsite, vtable_instances, handle_type, direct_calls
-from .c07 import schedule_direction, PE
+from .c07 import schedule_direction, PE, reached_walkers
 from .c11 import loops_bounded_by_rounds
 from ..initflow import lf_add, lf_const, lf_str
 
@@ -14,7 +14,7 @@ TITLE = ("Decides four structural necessary conditions of 'decrypt inverts encry
          "backward from rounds-1), every *_encrypt entry point and vtable slot 0 reaches only forward walkers, every "
          "*_decrypt entry point and slot 1 only backward walkers, including the never-executed scalar tails; (R2) a backward "
          "walk starts at schedule[rounds-1] and a forward walk at schedule[0], both visit exactly `rounds` entries of the "
-         "same object's rounds field that bounded the writer; (R4) mantis_swap_modes writes only k0, k0prime and k1 (tweak "
+         "same object's rounds field that bounded the writer; (R5) every site that XORs the reflection constant into k1 (key setup, mode switch, cipher core, per unit) applies the same eight constant bytes; (R4) mantis_swap_modes writes only k0, k0prime and k1 (tweak "
          "and rounds are outside its may-write set) and the parallel wrapper reaches it with the context pointer unchanged.")
 
 
@@ -69,11 +69,94 @@ def walk_start(prog, an, f):
     return out
 
 
+def k1_xor_maps(prog, an):
+    """per Mantis function: the byte map of constants XORed in place into a k1 object (the alpha constant):
+    {(unit, function): (b0..b7)} with None for untouched bytes.  Constants are only moved, never combined."""
+    out = {}
+    k1type = None
+    for tname, t in prog.ditypes.items():
+        for mm in t.get("members", []):
+            if mm["name"] == "k1" and tname.startswith("Mantis"):
+                k1type = mm["type"]
+    for f in prog.defined():
+        if family(f.name) != "mantis":
+            continue
+        am = an.summaries[f.key].fa.am
+        k1loc = set()
+        for i in f.all_insts():
+            if i["op"] == "call" and (i.get("intrinsic") or "") == "llvm.memcpy":
+                d, sr = am.of(i["ops"][0]), am.of(i["ops"][1])
+                if d is not None and d.root[0] == "alloca" and sr is not None and sr.segs[-1].ty and sr.segs[-1].off is not None and \
+                        prog.describe(sr.segs[-1].ty, sr.segs[-1].off)[:1] == ["k1"]:
+                    k1loc.add(d.root[1])
+        m = {}
+        site = None
+        for i in f.all_insts():
+            if i["op"] != "store":
+                continue
+            a = am.of(i["ops"][1])
+            if a is None:
+                continue
+            base = None
+            if a.root[0] == "alloca" and a.root[1] in k1loc and len(a.segs) == 1 and a.segs[0].off is not None:
+                base = a.segs[0].off
+            elif a.segs[-1].ty and a.segs[-1].off is not None and a.segs[-1].ty in prog.ditypes:
+                p = prog.describe(a.segs[-1].ty, a.segs[-1].off)
+                if p[:1] == ["k1"]:
+                    t = [mm for mm in prog.ditypes[a.segs[-1].ty]["members"] if mm["name"] == "k1"][0]
+                    base = a.segs[-1].off - t["off"]
+                elif a.root[0] == "arg" and len(a.segs) == 1 and a.segs[0].ty == k1type and a.segs[0].off < 8:
+                    base = a.segs[0].off          # helper working on a cells object handed in by pointer
+            if base is None:
+                continue
+            v = i["ops"][0]
+            while v[0] == "i" and f.insts[v[1]]["op"] in ("trunc", "zext", "sext"):
+                v = f.insts[v[1]]["ops"][0]
+            if v[0] != "i" or f.insts[v[1]]["op"] != "xor":
+                continue
+            x = f.insts[v[1]]
+            cs = [o for o in x["ops"] if o[0] == "c"]
+            ls = [o for o in x["ops"] if o[0] == "i"]
+            if len(cs) != 1 or len(ls) != 1:
+                continue
+            ld = f.insts[ls[0][1]]
+            while ld["op"] in ("trunc", "zext", "sext"):
+                o = ld["ops"][0]
+                if o[0] != "i":
+                    break
+                ld = f.insts[o[1]]
+            if ld["op"] != "load" or am.of(ld["ops"][0]) is None or akey(am.of(ld["ops"][0])) != akey(a):
+                continue
+            val = int(cs[0][1])
+            for j in range(i["size"]):
+                m[base + j] = (val >> (8 * j)) & 0xFF
+            site = site or i
+        if m:
+            out[f.key] = (tuple(m.get(j) for j in range(8)), site)
+    return out
+
+
 def run_config(ctx, rep, cfg):
     cn = config_name(cfg)
     prog = ctx.prog(cfg)
     an = ctx.an(cfg)
     pubs = public_functions(ctx, prog)
+    # ---- R5: every site that applies the reflection constant to k1 applies the same bytes
+    maps = k1_xor_maps(prog, an)
+    by_unit = {}
+    for fk, (m, site) in maps.items():
+        by_unit.setdefault(fk[0], []).append((fk, m, site))
+    for unit, lst in sorted(by_unit.items()):
+        from collections import Counter
+        cnt = Counter(m for (fk, m, site) in lst)
+        ref = cnt.most_common(1)[0][0]
+        for (fk, m, site) in sorted(lst):
+            f = prog.funcs[fk]
+            if m == ref and None not in m:
+                rep.ok("C03.R5", construct(f), f.loc(site), "k1 ^= %s (all 8 bytes), as at the %d other sites of this unit" % ("".join("%02x" % b for b in m), len(lst) - 1), cfg=cn)
+            else:
+                rep.violation("C03.R5", construct(f), f.loc(site), "the reflection constant applied to k1 here is %s but %s elsewhere in this unit: key setup / mode switch and the cipher core disagree, so a decrypt-keyed or switched schedule is not the inverse" %
+                              (["%02x" % b if b is not None else "--" for b in m], "".join("%02x" % b if b is not None else "--" for b in ref)), cfg=cn)
     nwalk = 0
     # ---- R1: classification of every block-processing function
     want = {}
@@ -96,25 +179,8 @@ def run_config(ctx, rep, cfg):
     for fk, (dirw, why) in sorted(want.items()):
         f = prog.funcs[fk]
         s = an.summaries[fk]
-        # direct walkers and dispatchers
-        callees = []
-        own = schedule_direction(prog, an, f)
-        if own is not None:
-            callees = [(f, own)]
-        else:
-            for i in f.all_insts():
-                if i["op"] != "call":
-                    continue
-                ts = []
-                if i["callee"][0] == "f":
-                    g = prog.resolve(f.unit, i["callee"][1])
-                    ts = [g] if g else []
-                elif i["callee"][0] == "i":
-                    ts = indirect_targets(prog, f, i)
-                for g in ts:
-                    d = schedule_direction(prog, an, g)
-                    if d is not None:
-                        callees.append((g, d))
+        # walkers reached (function-pointer arguments resolved at this entry point's own call sites)
+        callees = reached_walkers(prog, an, f)
         if not callees:
             if not any(cs.may for cs in s.cls.values()):
                 continue    # stub
@@ -188,17 +254,18 @@ def run_config(ctx, rep, cfg):
             rep.violation("C03.R4", cons, fsite(f), "mode switch writes only %s (k0, k0prime and k1 must all change)" % sorted(written), cfg=cn)
         else:
             rep.ok("C03.R4", cons, fsite(f), "writes exactly k0, k0prime, k1; tweak and rounds are outside MayWrite", cfg=cn)
-    return nwalk, nstart, nsw
+    return nwalk, nstart, nsw, len(maps)
 
 
 def run(ctx, rep):
     rep.assume("not decided: that the inverse round functions, inverse S-boxes and the alpha/k0' algebra are the inverses of the forward ones (value facts)",
                "direction trait: cursor over `schedule` starting at a constant element and stepping up = forward; starting at an index and stepping down = backward")
     for cfg in ctx.configs():
-        nwalk, nstart, nsw = run_config(ctx, rep, cfg)
+        nwalk, nstart, nsw, nmaps = run_config(ctx, rep, cfg)
         if cfg is None:
             rep.floor("C03.R1", "direction-constrained walkers reached", nwalk, 18)
             rep.floor("C03.R2", "schedule walks", nstart, 13)
             rep.floor("C03.R4", "mode-switch functions", nsw, 2)
+            rep.floor("C03.R5", "sites applying the reflection constant to k1", nmaps, 4)
         else:
             ctx.release(cfg)
